@@ -75,6 +75,18 @@ def run_shard(spec):
         trace_findings[id(rec)] = f
 
     bd.after_generate = after_generate
+    heur_findings = {}
+
+    def after_heuristic(wrapper, rec, weight):
+        from pv.mosek_trace import validate_heuristic
+        try:
+            heur_findings.setdefault(id(rec), []).extend(validate_heuristic(wrapper, rec, weight))
+            acc.count("heuristic_objectives_validated")
+        except Exception as e:
+            acc.count("trace_validator_errors")
+            acc.observations.append("heuristic validator error %r" % (e,))
+
+    bd.after_heuristic = after_heuristic
 
     def cases():
         if "replay" in spec:
@@ -131,6 +143,9 @@ def run_shard(spec):
             continue
         for f in trace_findings.pop(id(rec2), []) if rec2 is not None else []:
             V(f["key"], f["what"])
+        for rc_ in (case1.rec, rec2):
+            for f in heur_findings.pop(id(rc_), []) if rc_ is not None else []:
+                V(f["key"], f["what"])
         o1, o2 = case1.outcome, case2.outcome
         if o2[0] == "exc":
             name = type(o2[1]).__name__
